@@ -140,7 +140,15 @@ def run_tool(exe, stubdir, workdir, header_text, cfg, layout="output_last", time
     env["BG_STUB_LOG"] = log
     env["BG_STUB_HEADER"] = hpath
     env.pop("RUST_LOG", None)
-    p = subprocess.run([exe] + argv, cwd=workdir, env=env, stdout=subprocess.PIPE, stderr=subprocess.PIPE, timeout=timeout)
+    try:
+        p = subprocess.run([exe] + argv, cwd=workdir, env=env, stdout=subprocess.PIPE, stderr=subprocess.PIPE, timeout=timeout)
+    except subprocess.TimeoutExpired as ex:
+        # a tool that never finishes produces no header: reported as a failed run (callers turn rc != 0 into tool_failed:*)
+        class _P:
+            returncode = "timeout"
+            stdout = ex.stdout or b""
+            stderr = (ex.stderr or b"") + b"\ncglue-bindgen did not finish (no exit, no header at the output path): hung"
+        p = _P()
     res = {"rc": p.returncode, "stdout": p.stdout.decode("utf-8", "replace"), "stderr": p.stderr.decode("utf-8", "replace"),
            "expect_argv": expect, "expect_prog": prog, "stub_argv": None, "stub_prog": None, "output": None,
            "out_expected_in_file": out is not None, "second_exists": os.path.exists(out_path + ".second")}
